@@ -733,7 +733,55 @@ pub fn gen_outage_scenario(property: &str, seed: u64) -> Scenario {
             _ => add(1, 0, 0, 0),
         });
     }
-    let t2 = if r.chance(1, 3) {
+    let back_to_back = r.chance(1, 4);
+    if back_to_back {
+        // Two outages back to back, the tower polling through both: the chain thread's polls are spread out, the request
+        // thread keeps asking, and the environment leaves the second outage standing for a while. (What recovers the flag
+        // between the two may be the carrier's own probe, not a poll.)
+        t0.clear();
+        for _ in 0..r.range(2, 3) {
+            t0.push(Op::Poll);
+        }
+        for _ in 0..r.range(2, 4) {
+            t0.push(Op::Yield { n: r.range(5, 60) as u32 });
+            t0.push(Op::Poll);
+        }
+        t0.push(Op::WaitNodeUp { max: 600 });
+        t0.push(Op::Poll);
+        t0.push(Op::Poll);
+        for _ in 0..r.range(2, 4) {
+            if r.chance(1, 2) {
+                t1.push(Op::Yield { n: r.range(3, 40) as u32 });
+            }
+            t1.push(match r.below(4) {
+                0 => Op::Get { u: 0, d: 0, sig: Sig::Good },
+                1 => Op::SubInfo { u: 1, sig: Sig::Good },
+                2 => add(1, 4, 0, 0),
+                _ => Op::Register { u: 0 },
+            });
+        }
+    }
+    let t2 = if back_to_back && r.chance(1, 2) {
+        vec![
+            Op::WaitNodeDown { max: 400 },
+            Op::Yield { n: r.range(5, 60) as u32 },
+            Op::NodeUpThenDownAfter { rpcs: r.range(1, 4) as u32 },
+            Op::WaitNodeDown { max: 400 },
+            Op::Yield { n: r.range(20, 200) as u32 },
+            Op::NodeUp,
+        ]
+    } else if back_to_back {
+        // the second outage starts between two calls (nobody is talking to the node when it goes away): only a poll,
+        // or the next submission, can notice it
+        vec![
+            Op::WaitNodeDown { max: 400 },
+            Op::Yield { n: r.range(5, 60) as u32 },
+            Op::NodeUpThenDownAtBs { calls: r.range(1, 3) as u32 },
+            Op::WaitNodeDown { max: 400 },
+            Op::Yield { n: r.range(20, 200) as u32 },
+            Op::NodeUp,
+        ]
+    } else if r.chance(1, 3) {
         // the node comes back only for a moment: the second outage starts at one of the first calls after the recovery
         // (the carrier's own probe, or the call it retries)
         vec![
